@@ -764,6 +764,27 @@ impl GraphDatabaseService {
     }
 
     ///
+    /// filter the nodes ids announced by a peer for a room:
+    /// the rows deleted in that room are not requested again
+    ///
+    pub async fn filter_existing_room_node(
+        &self,
+        room_id: Uid,
+        mut node_ids: HashSet<NodeIdentifier>,
+    ) -> Result<Vec<NodeToInsert>> {
+        let (reply, receive) = oneshot::channel::<Result<HashSet<NodeIdentifier>>>();
+        self.db
+            .reader
+            .send_async(Box::new(move |conn| {
+                let res = Node::filter_deleted_in_room(&mut node_ids, &room_id, conn);
+                let _ = reply.send(res.map(|_| node_ids).map_err(Error::from));
+            }))
+            .await?;
+        let node_ids = receive.await??;
+        self.filter_existing_node(node_ids).await
+    }
+
+    ///
     /// get full node definition
     ///
     pub async fn get_nodes(
